@@ -525,6 +525,10 @@ func (e *SpecEnv) call(n *SCall) Val {
 		it := e.Eval(n.Args[0])
 		t, ids := x.idSort()
 		return Val{T: "(select " + x.getHeap(e.st, "badger.it.cur") + " " + it.T + ")", S: ids, Ty: t}
+	case "atomicBool":
+		x.u.regHeap("atomic.Bool.v", "(Array Int Bool)")
+		r := e.Eval(n.Args[0])
+		return Val{T: "(select " + x.getHeap(e.st, "atomic.Bool.v") + " " + r.T + ")", S: "Bool"}
 	case "errstr":
 		x.u.declSort("GoString")
 		x.need("errstr")
